@@ -2399,8 +2399,11 @@ func (n *RegexNode) FindStartingLiteralNode(allowZeroWidth bool) *RegexNode {
 				node = node.Children[0]
 				continue
 			case NtLoop, NtLazyloop:
-				node = node.Children[0]
-				continue
+				// only a loop that must iterate at least once guarantees its body's literal
+				if node.M > 0 {
+					node = node.Children[0]
+					continue
+				}
 			case NtPosLook:
 				if allowZeroWidth {
 					node = node.Children[0]
